@@ -2254,26 +2254,33 @@ impl LineBuf {
 	pub fn force_replace_at(&mut self, pos: usize, new: &str) {
 		let Some(gr) = self.grapheme_at(pos).map(|gr| gr.to_string()) else {
 			self.buffer.push_str(new);
+			self.update_graphemes();
 			return
 		};
 		let start = self.index_byte_pos(pos);
 		let end = start + gr.len();
 		self.buffer.replace_range(start..end, new);
+		// The replacement may have a different byte length: the cached offsets are stale now
+		self.update_graphemes();
 	}
 	pub fn replace_at(&mut self, pos: usize, new: &str) {
 		let Some(gr) = self.grapheme_at(pos).map(|gr| gr.to_string()) else {
 			self.buffer.push_str(new);
+			self.update_graphemes();
 			return
 		};
 		if &gr == "\n" {
 			// Do not replace the newline, push it forward instead
 			let byte_pos = self.index_byte_pos(pos);
 			self.buffer.insert_str(byte_pos, new);
+			self.update_graphemes();
 			return
 		}
 		let start = self.index_byte_pos(pos);
 		let end = start + gr.len();
 		self.buffer.replace_range(start..end, new);
+		// The replacement may have a different byte length: the cached offsets are stale now
+		self.update_graphemes();
 	}
 	pub fn eval_line_addr(&mut self, addr: LineAddr) -> Option<usize> {
 		match addr {
